@@ -394,6 +394,7 @@ def name_val(v, key):
 
 def join_states(a, b, site=None):
     s = State()
+    cand = []
     ca, cb = a.cells, b.cells
     for k, va in ca.items():
         vb = cb.get(k)
@@ -415,7 +416,37 @@ def join_states(a, b, site=None):
         j = join(va, vb)
         if site is not None:
             j = name_val(j, (site, k))
+            if j[0] == 'I' and va[0] == 'I' and vb[0] == 'I' and j[4] is not None and j[4][0] in ('j', 'jd') and va[1:3] != vb[1:3] and len(cand) < 8:
+                cand.append((j[4], va, vb))
+            elif j[0] == 'A' and va[0] == 'A' and vb[0] == 'A' and len(j[1]) == len(va[1]) == len(vb[1]) <= 6:
+                for j_, a_, b_ in zip(j[1], va[1], vb[1]):      # a tuple of per-arm constants
+                    if j_[0] == 'I' and a_[0] == 'I' and b_[0] == 'I' and j_[4] is not None and j_[4][0] in ('j', 'jd') and a_[1:3] != b_[1:3] and len(cand) < 8:
+                        cand.append((j_[4], a_, b_))
         s.cells[k] = j
+    derived = []
+    if cand and a.rf and b.rf:
+        # a value that is a (different) constant in each state and a term bounded from below / above by that
+        # constant in each state: the order between the joined value and the term survives the join
+        # (match arms binding `(first, ..)` for `mov` in first..=last, then `mov - first`)
+        n_ = 0
+        for X, ra in a.rf.items():
+            rb = b.rf.get(X)
+            if rb is None or isinstance(ra[2], bool) or isinstance(rb[2], bool) or X[0] == 'c' or X[0] in CMPS:
+                continue
+            n_ += 1
+            if n_ > 24:
+                break
+            for jt, va, vb in cand:
+                if jt == X:
+                    continue
+                le_a = va[2] <= ra[0] or (va[4] is not None and ('Le', va[4], X) in a.facts)
+                le_b = vb[2] <= rb[0] or (vb[4] is not None and ('Le', vb[4], X) in b.facts)
+                ge_a = va[1] >= ra[1] or (va[4] is not None and ('Ge', va[4], X) in a.facts)
+                ge_b = vb[1] >= rb[1] or (vb[4] is not None and ('Ge', vb[4], X) in b.facts)
+                if le_a and le_b:
+                    derived.append(('Le', jt, X))
+                elif ge_a and ge_b:
+                    derived.append(('Ge', jt, X))
     for t, r in a.rf.items():
         r2 = b.rf.get(t)
         if r2 is not None:
@@ -429,6 +460,8 @@ def join_states(a, b, site=None):
         if v2 is not None:
             s.erf[e] = vs | v2
     s.facts = a.facts & b.facts
+    if derived:
+        s.facts = s.facts | frozenset(derived)
     s.tags = a.tags & b.tags
     return s
 
